@@ -132,17 +132,22 @@ static void scenario() {
                 tbb::task_group in; in.run([&] { for (int i = 0; i < 300 && !submitted; i++) vf_yield(); }); gin = &in; in.wait(); gin = nullptr; in_iso = 0; });
             outer.wait(); }); vf_window(0); }
     else if (streq(k, "full_arena")) {   // one worker (limit 2); arena A(2,0) is full of application threads (which lowers its demand for workers to nothing it could use) and keeps a
-        // spawned task pending; a task enqueued into arena B must get the worker - it must not be granted to A, where it cannot get a slot
+        // spawned task pending; a task enqueued into arena B must get the worker - it must not be granted to A, where it cannot get a slot.
+        // Both application threads are inside A *before* the spawn (until then A has no demand, so the worker cannot take one of its slots
+        // and end up parked in the user body, which would make the scenario wait for a thread that the harness itself holds).
         tbb::global_control gc(tbb::global_control::max_allowed_parallelism, 2); tbb::task_arena A(2, 0), B(2, 1); A.initialize(); B.initialize();
-        static int inA, leave, ran, evB; inA = leave = ran = evB = 0;
+        static int inA, spawned, leave, ran, evB, idxA[2]; inA = spawned = leave = ran = evB = 0; idxA[0] = idxA[1] = -1;
         auto ids = gated(2, [&](int) { is_ext[vf_self()] = true; (void)tbb::this_task_arena::max_concurrency(); }, [&](int i) {
-            A.execute([&, i] { tbb::task_group tg; if (i == 0) tg.run([&] { vf_point(); });   /* advertised work in A; it stays in this thread's pool while the thread is parked below */
-                inA++; vf_wake(&inA); while (!leave) vf_block_on(&leave); tg.wait(); }); });
-        vf_window(1); vf_gate_open(); while (inA < 2) vf_block_on(&inA);
+            A.execute([&, i] { tbb::task_group tg; idxA[i] = tbb::this_task_arena::current_thread_index(); inA++; vf_wake(&inA); while (inA < 2) vf_block_on(&inA);
+                if (i == 0) { tg.run([&] { vf_point(); });   /* advertised work in A; it stays in this thread's pool while the thread is parked below */ spawned = 1; vf_wake(&spawned); }
+                while (!leave) vf_block_on(&leave); tg.wait(); }); });
+        vf_window(1); vf_gate_open(); while (!spawned) vf_block_on(&spawned);
         B.enqueue([&] { ran = 1; vf_wake(&evB); });
         for (int j = 0; j < 600 && !ran; j++) vf_yield();
-        if (!ran) { leave = 1; vf_wake(&leave); join_all(ids); vf_fail("a task enqueued into arena B did not run although a worker exists: arena A, whose two slots are both held by application threads, kept its demand for a worker"); }
-        leave = 1; vf_wake(&leave); join_all(ids); vf_window(0); }
+        int bad = !ran; leave = 1; vf_wake(&leave); join_all(ids);
+        if (idxA[0] == idxA[1] || idxA[0] < 0 || idxA[0] > 1 || idxA[1] < 0 || idxA[1] > 1) vf_fail("two application threads inside task_arena(2,0) report slot indices %d and %d", idxA[0], idxA[1]);
+        if (bad) vf_fail("a task enqueued into arena B did not run although a worker exists and is not inside any user code: arena A, whose two slots are both held by application threads, kept its demand for a worker");
+        vf_window(0); }
     else if (streq(k, "observer_slot")) {   // a thread is inside the arena from its on_scheduler_entry to the end of its on_scheduler_exit: indices distinct, at most max_concurrency threads
         tbb::global_control gc(tbb::global_control::max_allowed_parallelism, 3); tbb::task_arena a(2, 2); a.initialize();   // both slots reserved for application threads: no workers
         struct SlotObs : tbb::task_scheduler_observer { int held[8], inside; SlotObs(tbb::task_arena& ar) : tbb::task_scheduler_observer(ar), inside(0) { for (int& h : held) h = 0; }
